@@ -15,7 +15,7 @@ PY_BUILTINS = {"len", "int", "float", "bool", "str", "bytes", "abs", "min", "max
                "enumerate", "zip", "sorted", "list", "tuple", "dict", "set", "sum", "any", "all", "getattr",
                "hasattr", "print", "repr", "divmod", "pow", "hash", "id", "type", "object", "reversed", "iter",
                "next", "callable", "bytearray", "frozenset", "super", "ord", "chr", "hex", "format", "map", "filter"}
-SPEC_FORMS = {"dq_lo", "dq_hi", "dq_at_pos", "dq_pos_of", "now", "map_has", "map_get", "map_key0", "set_has", "dq_len", "dq_maxlen", "dq_at", "dq_idx", "ghost", "timer_arg", "timer_delay", "old", "implies", "forall", "exists", "raised", "iff", "ite", "uf", "fresh_int", "fresh_real",
+SPEC_FORMS = {"gcount", "dq_lo", "dq_hi", "dq_at_pos", "dq_pos_of", "now", "map_has", "map_get", "map_key0", "set_has", "dq_len", "dq_maxlen", "dq_at", "dq_idx", "ghost", "timer_arg", "timer_delay", "old", "implies", "forall", "exists", "raised", "iff", "ite", "uf", "fresh_int", "fresh_real",
               "fresh_bool"}
 EXTERNAL_MODULES = {"math", "time", "threading", "random", "logging", "datetime", "json", "socket", "struct",
                     "select", "copy", "dataclasses", "typing", "enum", "collections", "hashlib", "os", "sys",
